@@ -169,7 +169,7 @@ def writer_layout(ctx: Ctx, f: Func):
                 if w is None:
                     return None
                 out.append({"width": w, "prec": val(m.group("prec")), "type": m.group("type") or "",
-                            "align": m.group("align") or "", "spec": spec})
+                            "align": m.group("align") or "", "sign": m.group("sign") or "", "spec": spec})
         return out
 
     novel = fields_of(base)
@@ -298,6 +298,13 @@ def r13_1(ctx: Ctx):
                "list-of-format-strings shape; column agreement not decided on this tree", undecided=True)
         return
     novel, withvel, keysym, extra = wl
+    # a numeric field is exactly as wide as the reader's column: a sign flag (' ' or '+') reserves a column on top of the
+    # digits, so a positive value that needs the whole width comes out one character wider and shifts every later column
+    for fld in withvel:
+        if fld.get("type") in ("f", "d", "e", "g") and fld.get("sign") in (" ", "+"):
+            ctx.ob("R13.1", w, "format field `{:%s}`" % fld["spec"], False,
+                   "numeric fields carry no sign flag: the flag %r reserves a sign column, so a positive number that fills "
+                   "the field is written one character wider than the column the reader cuts" % fld["sign"], node=w.node)
     base_fields, vel_fields, explen, leaf = reader_layout(ctx, r, h)
     if base_fields is not None and any(b is None for b in base_fields):
         # a slice of the line whose bounds are arithmetic in the field width but not a polynomial (e.g. a division)
